@@ -11,7 +11,7 @@ Sources mirrored, branch for branch:
   `delete_values`, `_check_new_value_types`, the optional attributes (`unit`, `definition`,
   `uncertainty`, `reference`, `dependency`, `dependency_value`, `value_origin`, `odml_type`)
 * `nixio/section.py`   — `create_property`, `create_section`, `__len__`, `__getitem__`,
-  `__setitem__`, `__delitem__`, `__contains__`, `items`, `props`
+  `__setitem__`, `__delitem__`, `__contains__`, `__iter__`, `items`, `props`
 * `nixio/container.py`, `nixio/hdf5/h5group.py` — lookup by name / id / position
   (`get_by_id_or_name`, the `is_uuid` dispatch, creation-order iteration, `delete_all` by id)
 * `nixio/hdf5/h5dataset.py` — the 1-D resizable dataset behind a property (`shape` setter =
@@ -669,6 +669,7 @@ inductive Op where
   | len
   | items
   | reopen
+  | iter
   deriving Repr, Inhabited
 
 inductive Res where
@@ -711,6 +712,7 @@ def step (st : State) : Op → State × Out
   | .len => (st, .ok (.nat (secLen st)))
   | .items => (st, .ok (.items (items st)))
   | .reopen => (st, .ok .unit)
+  | .iter => (st, .ok (.items (items st)))       -- `for item in section` = the second components of `items()`
 
 /-- a history, from the left -/
 def run (st : State) : List Op → State
